@@ -204,6 +204,28 @@ fn nlit_long(b: &[u8]) -> String {
     format!("({})", parts.join(" + "))
 }
 
+/// Definitions prepended to the generated case files (nothing in /verif/coq changes): `LP len seed` is the
+/// number whose little-endian encoding is the `len` bytes "high byte of x_i", x_0 = seed, x_{i+1} = 5 x_i + 12345
+/// mod 2^16. coqc needs ~80 us per byte of a literal (5 s for 64 KiB); this term costs a few ms.
+const LP_HEADER: &str = "From CC Require Import Lib.Bytes.\nFixpoint lp_bytes (n : nat) (x : N) : list N := match n with O => nil | S k => cons (N.shiftr x 8%N) (lp_bytes k (N.land (x * 5 + 12345)%N 65535%N)) end.\nDefinition LP (n seed : N) : N := le_join (lp_bytes (N.to_nat n) (N.land seed 65535%N)).";
+fn lp_fill(n: usize, seed: u16) -> Vec<u8> {
+    let mut x = seed as u32;
+    (0..n)
+        .map(|_| {
+            let b = (x >> 8) as u8;
+            x = (x * 5 + 12345) & 0xffff;
+            b
+        })
+        .collect()
+}
+/// the seed if `msg` (4 KiB or more) is such a sequence
+fn lp_seed(msg: &[u8]) -> Option<u16> {
+    if msg.len() < 4096 {
+        return None;
+    }
+    (0..256u16).map(|lo| (msg[0] as u16) << 8 | lo).find(|s| lp_fill(16, *s)[..] == msg[..16] && lp_fill(msg.len(), *s)[..] == msg[..])
+}
+
 /// message contents: random / zero / ones / counting (and the structured kinds of util::Rng::bytes)
 fn content(rng: &mut Rng, kind: usize, n: usize) -> Vec<u8> {
     match kind % 5 {
@@ -285,6 +307,22 @@ fn gen_inputs(rng: &mut Rng, thorough: bool, streams: &str, seed: u64, big_outpu
             let msg = content(rng, k, len);
             let split = split_for(rng, len, nb);
             v.push(Input { size, nout, hook: None, msg, split, stream: "long", same_object: None });
+        }
+    }
+    // G: ONE update call with a long message (the other streams stop at ~4 KiB in quick; `split` = 0, i.e. an empty
+    //    update, then the whole message in one call): 8 KiB for every state size, 64 KiB + 1 for Skein-512 (the cheapest per byte in
+    //    coqc: ~20 s for model + spec under load; 256 and 1024 need ~35 s) and 16 KiB + 1 for the other two; the hook /
+    //    smoke streams (release profile, no_unroll build): 8 KiB for one state size. Contents: the sequence LP.
+    {
+        let lens: Vec<(usize, usize)> = if all {
+            SIZES.iter().enumerate().flat_map(|(si, &size)| vec![(size, 8192usize), (size, if si == 1 { 65537 } else { 16385 })]).collect()
+        } else {
+            vec![(SIZES[((seed + 1) % 3) as usize], 8192)]
+        };
+        for (k, (size, len)) in lens.into_iter().enumerate() {
+            let nout = [32usize, 64, 28, 128, 33, 20][(k + seed as usize) % 6];
+            let msg = lp_fill(len, rng.below(1 << 16) as u16);
+            v.push(Input { size, nout, hook: None, msg, split: 0, stream: "one_long_update", same_object: None });
         }
     }
     {
@@ -517,6 +555,7 @@ fn main() {
         distinct.insert((inp.size, inp.nout, inp.hook.clone(), inp.msg.clone(), inp.split));
         let empty = Hook { x: Vec::new(), t0: 0, t1: 0, buffered: Vec::new() };
         let hk = inp.hook.as_ref().unwrap_or(&empty);
+        let lp = if inp.stream == "one_long_update" { lp_seed(&inp.msg) } else { None };
         coq.push(format!(
             "SK {} {} {} {} {} {} {} {} {} {} {} {} {} {} {} {} {} {}",
             inp.size,
@@ -530,7 +569,10 @@ fn main() {
             hk.buffered.len(),
             nlit(&hk.buffered),
             inp.msg.len(),
-            nlit_long(&inp.msg),
+            match lp {
+                Some(sd) => format!("(LP {} {})", inp.msg.len(), sd),
+                None => nlit_long(&inp.msg),
+            },
             inp.split,
             o.panicked,
             nlit_u64(o.at0),
@@ -558,7 +600,10 @@ fn main() {
                 ),
             },
             inp.msg.len(),
-            jstr(&hex(&inp.msg)),
+            match lp {
+                Some(sd) => jstr(&format!("byte i = x_i >> 8, x_0 = {}, x_(i+1) = (5 x_i + 12345) mod 65536; first bytes {}", sd, hex(&inp.msg[..16]))),
+                None => jstr(&hex(&inp.msg)),
+            },
             inp.split,
             jstr(if o.panicked { "panic" } else { "ok" }),
             jstr(&format!("0x{:x}", o.at0)),
@@ -576,7 +621,7 @@ fn main() {
     write_shards(
         &out,
         shards,
-        "From Coq Require Import NArith List.\nFrom CC Require Import Run.Runner Run.Skein.",
+        &format!("From Coq Require Import NArith List.\nFrom CC Require Import Run.Runner Run.Skein.\n{}", LP_HEADER),
         "skcase",
         &runner,
         &coq,
